@@ -295,6 +295,10 @@ def random_campaign(seed, count, props, fixed=None, limits=False):
             back = ab.alpha(kind, fmt, dec, RawValues())
             if back != plain:
                 bad.append(("C01:decode_differs", f"large {kind} format {fmt}", rp))
+                if enc == exp:
+                    # the bytes are exactly the layout's, and the library reads other values from them
+                    # than the layout-driven decoder does
+                    bad.append(("C06:decoded_values_differ", f"large {kind} format {fmt}: layout-conformant bytes decode to other values", rp))
             if ab.encode(dec) != enc:
                 bad.append(("C01:reencode_differs", f"large {kind} format {fmt}", rp))
         except Exception as x:  # noqa: BLE001
